@@ -35,6 +35,10 @@ func init() {
 }
 
 func runC15(c *an.Ctx) {
+	dnssvcWiring(c, "C15-R10", func(dst, src string) bool {
+		n := normName(dst) + " " + normName(src)
+		return strings.Contains(n, "querylog") || strings.Contains(n, "billstat")
+	}, 2)
 	// ---- C15-R10: builder wiring of the components this property rests on
 	c.Floor("C15-R10", 3)
 	builderWiring(c, "C15-R10", map[string][]string{
